@@ -40,6 +40,9 @@ type fwdRunScenario struct {
 	SignalAfterMs int `json:"signal_after_ms"`
 	// TwoListeners: the proxy has an extra listener; the idle client sits on it, the in-flight one on the main listener
 	TwoListeners bool `json:"two_listeners"`
+	// UptimeMs: the proxy has been running this long before the context is cancelled (longer than the
+	// shutdown timeout: the timeout must count from the cancel, not from the start)
+	UptimeMs int `json:"uptime_ms"`
 }
 
 type fwdRunResult struct {
@@ -165,6 +168,9 @@ func runRun(sc fwdRunScenario) (res fwdRunResult) {
 		}
 	}
 
+	if sc.UptimeMs > 0 {
+		time.Sleep(time.Duration(sc.UptimeMs) * time.Millisecond)
+	}
 	// warm-up: one complete exchange by a client that then leaves (an idle upstream connection remains)
 	w, err := dial()
 	if err != nil {
@@ -310,6 +316,10 @@ func genRunScenarios(tier string) []fwdRunScenario {
 	out = append(out,
 		fwdRunScenario{Name: "run/400/two-listeners/inflight-answered+idle", TimeoutMs: 400, Inflight: true, OriginAfterMs: 100, Idle: true, TwoListeners: true},
 		fwdRunScenario{Name: "run/400/two-listeners/idle-late-send", TimeoutMs: 400, Idle: true, LateSend: true, OriginAfterMs: -1, TwoListeners: true})
+	// the proxy has been up longer than the shutdown timeout when the cancel comes
+	out = append(out,
+		fwdRunScenario{Name: "run/400/uptime600/inflight-answered", TimeoutMs: 400, Inflight: true, OriginAfterMs: 150, UptimeMs: 600},
+		fwdRunScenario{Name: "run/400/uptime600/idle", TimeoutMs: 400, Idle: true, OriginAfterMs: -1, UptimeMs: 600})
 	// a shutdown timeout of zero means no limit: the drain is waited for, however long the origin takes
 	out = append(out,
 		fwdRunScenario{Name: "run/0/inflight-answered", TimeoutMs: 0, Inflight: true, OriginAfterMs: 250},
